@@ -367,3 +367,185 @@ Theorem C03_gen_compute_lca_sets_spec :
 Proof. exact @gen_compute_lca_sets_spec. Qed.
 Print Assumptions C03_gen_compute_lca_sets_spec.
 
+
+(* ---- closing corollaries added after the independent review (DESIGN 10.3): the lemmas are in Proofs/ReviewC*.v ---- *)
+
+From SR Require Import Proofs.ReviewCModels Proofs.ReviewCUspfsOpt Proofs.ReviewCUspfsAny. Import ReviewCModels.PartA ReviewCUspfsOpt.PartB_C03 ReviewCUspfsAny.PartCuspfs.
+
+Theorem C03_c03_all_nonempty :
+  forall (S : stree) (c : costs) (extended : bool) (O : otree),
+       nn (c_hgt c) ->
+       ucoherent c ->
+       leaves_ok S O -> exists E : entry ltree, uspfs S c RALL extended O = Some E /\ tags E <> [].
+Proof. exact @c03_all_nonempty. Qed.
+Print Assumptions C03_c03_all_nonempty.
+
+Theorem C03_c03_all_exact :
+  forall (S : stree) (c : costs) (extended : bool) (O : otree),
+       nn (c_hgt c) ->
+       ucoherent c ->
+       leaves_ok S O ->
+       exists E : entry ltree,
+         uspfs S c RALL extended O = Some E /\
+         NoDup (tags E) /\ (forall t : ltree, In t (tags E) <-> uoptimal S c extended O t).
+Proof. exact @c03_all_exact. Qed.
+Print Assumptions C03_c03_all_exact.
+
+Theorem C03_c03_any :
+  forall (S : stree) (c : costs) (extended : bool) (O : otree),
+       nn (c_hgt c) ->
+       ucoherent c ->
+       leaves_ok S O ->
+       exists (E : entry ltree) (t : ltree),
+         uspfs S c RANY extended O = Some E /\ tags E = [t] /\ uoptimal S c extended O t.
+Proof. exact @c03_any. Qed.
+Print Assumptions C03_c03_any.
+
+Theorem C03_c03_gen_extended_optimum :
+  forall (lca node_id olca : Type) (nid_eqb : node_id -> node_id -> bool),
+       (forall a b : node_id, reflect (a = b) (nid_eqb a b)) ->
+       forall (lcaobj : lca) (S : stree) (c : costs) (leafsp : node_id -> path)
+         (syn : node_id -> list fam) (O : UspfsGenCommon.Common.EV.TreeNode node_id)
+         (missing : node_id -> path) (missing_syn : node_id -> list fam)
+         (ord_infos : list LK.GM.TX.CM.ca -> list LK.GM.TX.CM.ca)
+         (fam_order sort_synteny_fn : list fam -> list fam)
+         (oeqb : UspfsGenCommon.Embed.UG.spout_state -> UspfsGenCommon.Embed.UG.spout_state -> bool)
+         (olca_of : UspfsGenCommon.Common.EV.TreeNode node_id -> olca)
+         (olca_call : olca -> list node_id -> node_id)
+         (syn_items : (node_id -> list fam) -> list (node_id * list fam))
+         (node_order : list node_id -> list node_id),
+       UspfsLink.W nid_eqb S c leafsp syn O missing missing_syn ord_infos fam_order sort_synteny_fn
+         oeqb olca_of olca_call syn_items node_order ->
+       ucoherent c ->
+       exists outs : list UspfsGenCommon.Embed.UG.spout_state,
+         UspfsGenCommon.Embed.UG.gen_usreconcile_extended_uspfs N.eqb path_eqb nid_eqb
+           (fun _ : lca => anc) (fun _ : lca => lcp) (fun _ : lca => dist)
+           (fun _ : lca => UspfsGenCommon.Embed.sembed3 S []) olca_of olca_call syn_items fam_order
+           node_order (fun _ : lca => sanc) (fun _ : lca => comparable) oeqb missing missing_syn
+           ord_infos sort_synteny_fn
+           {|
+             LK.DC.T.EvalGen.sin_object_tree := O;
+             LK.DC.T.EvalGen.sin_species_lca := lcaobj;
+             LK.DC.T.EvalGen.sin_leaf_object_species := leafsp;
+             LK.DC.T.EvalGen.sin_costs := EvalGenProofs.stsocc c;
+             LK.DC.T.EvalGen.sin_leaf_syntenies := syn
+           |} (EntryGenProofs.prc RALL) = UspfsGenCommon.Embed.UG.Ok outs /\
+         outs <> [] /\
+         NoDup (map (UspfsLink.lt_out nid_eqb O missing missing_syn) outs) /\
+         (forall t : ltree,
+          In t (map (UspfsLink.lt_out nid_eqb O missing missing_syn) outs) <->
+          umin_sol S c leafsp syn O true t).
+Proof. exact @c03_gen_extended_optimum. Qed.
+Print Assumptions C03_c03_gen_extended_optimum.
+
+Theorem C03_c03_gen_base_optimum :
+  forall (lca node_id olca : Type) (nid_eqb : node_id -> node_id -> bool),
+       (forall a b : node_id, reflect (a = b) (nid_eqb a b)) ->
+       forall (lcaobj : lca) (S : stree) (c : costs) (leafsp : node_id -> path)
+         (syn : node_id -> list fam) (O : UspfsGenCommon.Common.EV.TreeNode node_id)
+         (missing : node_id -> path) (missing_syn : node_id -> list fam)
+         (ord_infos : list LK.GM.TX.CM.ca -> list LK.GM.TX.CM.ca)
+         (fam_order sort_synteny_fn : list fam -> list fam)
+         (oeqb : UspfsGenCommon.Embed.UG.spout_state -> UspfsGenCommon.Embed.UG.spout_state -> bool)
+         (olca_of : UspfsGenCommon.Common.EV.TreeNode node_id -> olca)
+         (olca_call : olca -> list node_id -> node_id)
+         (syn_items : (node_id -> list fam) -> list (node_id * list fam))
+         (node_order : list node_id -> list node_id),
+       UspfsLink.W nid_eqb S c leafsp syn O missing missing_syn ord_infos fam_order sort_synteny_fn
+         oeqb olca_of olca_call syn_items node_order ->
+       ucoherent c ->
+       exists outs : list UspfsGenCommon.Embed.UG.spout_state,
+         UspfsGenCommon.Embed.UG.gen_usreconcile_base_uspfs N.eqb path_eqb nid_eqb
+           (fun _ : lca => anc) (fun _ : lca => lcp) (fun _ : lca => dist)
+           (fun _ : lca => UspfsGenCommon.Embed.sembed3 S []) olca_of olca_call syn_items fam_order
+           node_order (fun _ : lca => sanc) (fun _ : lca => comparable) oeqb missing missing_syn
+           ord_infos sort_synteny_fn
+           {|
+             LK.DC.T.EvalGen.sin_object_tree := O;
+             LK.DC.T.EvalGen.sin_species_lca := lcaobj;
+             LK.DC.T.EvalGen.sin_leaf_object_species := leafsp;
+             LK.DC.T.EvalGen.sin_costs := EvalGenProofs.stsocc c;
+             LK.DC.T.EvalGen.sin_leaf_syntenies := syn
+           |} (EntryGenProofs.prc RALL) = UspfsGenCommon.Embed.UG.Ok outs /\
+         outs <> [] /\
+         NoDup (map (UspfsLink.lt_out nid_eqb O missing missing_syn) outs) /\
+         (forall t : ltree,
+          In t (map (UspfsLink.lt_out nid_eqb O missing missing_syn) outs) <->
+          umin_sol S c leafsp syn O false t).
+Proof. exact @c03_gen_base_optimum. Qed.
+Print Assumptions C03_c03_gen_base_optimum.
+
+Theorem C03_gen_usreconcile_extended_uspfs_any :
+  forall (lca node_id olca : Type) (nid_eqb : node_id -> node_id -> bool),
+       (forall a b : node_id, reflect (a = b) (nid_eqb a b)) ->
+       forall (lcaobj : lca) (S : stree) (c : costs) (leafsp : node_id -> path)
+         (syn : node_id -> list fam) (O : UspfsGenCommon.Common.EV.TreeNode node_id)
+         (missing : node_id -> path) (missing_syn : node_id -> list fam)
+         (ord_infos : list LK.GM.TX.CM.ca -> list LK.GM.TX.CM.ca)
+         (fam_order sort_synteny_fn : list fam -> list fam)
+         (oeqb : UspfsGenCommon.Embed.UG.spout_state -> UspfsGenCommon.Embed.UG.spout_state -> bool)
+         (olca_of : UspfsGenCommon.Common.EV.TreeNode node_id -> olca)
+         (olca_call : olca -> list node_id -> node_id)
+         (syn_items : (node_id -> list fam) -> list (node_id * list fam))
+         (node_order : list node_id -> list node_id),
+       LK.W nid_eqb S c leafsp syn O missing missing_syn ord_infos fam_order sort_synteny_fn oeqb
+         olca_of olca_call syn_items node_order ->
+       ucoherent c ->
+       forall E : entry ltree,
+       uspfs S c RALL true (EvalGenProofs.otree_of leafsp syn O) = Some E ->
+       exists o : UspfsGenCommon.Embed.UG.spout_state,
+         UspfsGenCommon.Embed.UG.gen_usreconcile_extended_uspfs N.eqb path_eqb nid_eqb
+           (fun _ : lca => anc) (fun _ : lca => lcp) (fun _ : lca => dist)
+           (fun _ : lca => UspfsGenCommon.Embed.sembed3 S []) olca_of olca_call syn_items fam_order
+           node_order (fun _ : lca => sanc) (fun _ : lca => comparable) oeqb missing missing_syn
+           ord_infos sort_synteny_fn
+           {|
+             LK.DC.T.EvalGen.sin_object_tree := O;
+             LK.DC.T.EvalGen.sin_species_lca := lcaobj;
+             LK.DC.T.EvalGen.sin_leaf_object_species := leafsp;
+             LK.DC.T.EvalGen.sin_costs := EvalGenProofs.stsocc c;
+             LK.DC.T.EvalGen.sin_leaf_syntenies := syn
+           |} (EntryGenProofs.prc RANY) = UspfsGenCommon.Embed.UG.Ok [o] /\
+         In (LK.lt_out nid_eqb O missing missing_syn o) (tags E) /\
+         uoptimal S c true (EvalGenProofs.otree_of leafsp syn O)
+           (LK.lt_out nid_eqb O missing missing_syn o).
+Proof. exact @gen_usreconcile_extended_uspfs_any. Qed.
+Print Assumptions C03_gen_usreconcile_extended_uspfs_any.
+
+Theorem C03_gen_usreconcile_base_uspfs_any :
+  forall (lca node_id olca : Type) (nid_eqb : node_id -> node_id -> bool),
+       (forall a b : node_id, reflect (a = b) (nid_eqb a b)) ->
+       forall (lcaobj : lca) (S : stree) (c : costs) (leafsp : node_id -> path)
+         (syn : node_id -> list fam) (O : UspfsGenCommon.Common.EV.TreeNode node_id)
+         (missing : node_id -> path) (missing_syn : node_id -> list fam)
+         (ord_infos : list LK.GM.TX.CM.ca -> list LK.GM.TX.CM.ca)
+         (fam_order sort_synteny_fn : list fam -> list fam)
+         (oeqb : UspfsGenCommon.Embed.UG.spout_state -> UspfsGenCommon.Embed.UG.spout_state -> bool)
+         (olca_of : UspfsGenCommon.Common.EV.TreeNode node_id -> olca)
+         (olca_call : olca -> list node_id -> node_id)
+         (syn_items : (node_id -> list fam) -> list (node_id * list fam))
+         (node_order : list node_id -> list node_id),
+       LK.W nid_eqb S c leafsp syn O missing missing_syn ord_infos fam_order sort_synteny_fn oeqb
+         olca_of olca_call syn_items node_order ->
+       ucoherent c ->
+       forall E : entry ltree,
+       uspfs S c RALL false (EvalGenProofs.otree_of leafsp syn O) = Some E ->
+       exists o : UspfsGenCommon.Embed.UG.spout_state,
+         UspfsGenCommon.Embed.UG.gen_usreconcile_base_uspfs N.eqb path_eqb nid_eqb
+           (fun _ : lca => anc) (fun _ : lca => lcp) (fun _ : lca => dist)
+           (fun _ : lca => UspfsGenCommon.Embed.sembed3 S []) olca_of olca_call syn_items fam_order
+           node_order (fun _ : lca => sanc) (fun _ : lca => comparable) oeqb missing missing_syn
+           ord_infos sort_synteny_fn
+           {|
+             LK.DC.T.EvalGen.sin_object_tree := O;
+             LK.DC.T.EvalGen.sin_species_lca := lcaobj;
+             LK.DC.T.EvalGen.sin_leaf_object_species := leafsp;
+             LK.DC.T.EvalGen.sin_costs := EvalGenProofs.stsocc c;
+             LK.DC.T.EvalGen.sin_leaf_syntenies := syn
+           |} (EntryGenProofs.prc RANY) = UspfsGenCommon.Embed.UG.Ok [o] /\
+         In (LK.lt_out nid_eqb O missing missing_syn o) (tags E) /\
+         uoptimal S c false (EvalGenProofs.otree_of leafsp syn O)
+           (LK.lt_out nid_eqb O missing missing_syn o).
+Proof. exact @gen_usreconcile_base_uspfs_any. Qed.
+Print Assumptions C03_gen_usreconcile_base_uspfs_any.
+
